@@ -282,16 +282,15 @@ mod validity {
         }
 
         if !right_type.is_orderable() {
-            // The right argument must be a tag at this point. If it is not a tag
-            // and the second .unwrap() below panics, then our type inference
-            // has inferred an incorrect type for the variable in the argument.
-            let tag = right.unwrap().as_tag().unwrap();
-
-            errors.push(FilterTypeError::non_orderable_tag_argument_to_ordering_filter(
-                operation.operation_name(),
-                tag_name.unwrap(),
-                tag.field_type(),
-            ));
+            // Only a tag has a type of its own. The type of a variable is inferred from
+            // the left operand, and that operand's non-orderable type is reported above.
+            if let Some(tag) = right.unwrap().as_tag() {
+                errors.push(FilterTypeError::non_orderable_tag_argument_to_ordering_filter(
+                    operation.operation_name(),
+                    tag_name.unwrap(),
+                    tag.field_type(),
+                ));
+            }
         }
 
         // For the operands relative to each other, nullability doesn't matter,
